@@ -5,7 +5,7 @@ def resolveReadLimit : Nat := 1048576
 /-- the largest manifest size Link's already-linked test recognises = the limit it passes to `readAndSum` -/
 def linkReadLimit : Nat := 1048576
 /-- does `readAndSum` refuse a file longer than the limit (proposed_fixes/C08-F28.patch) instead of cutting it? -/
-def readStrict : Bool := false
+def readStrict : Bool := true
 /-- does `copyNamedFile` refuse a negative size (proposed_fixes/C08-F29.patch)? -/
 def negRefused : Bool := true
 end OllamaVerif.Generated.C08
